@@ -231,7 +231,7 @@ def all_harnesses() -> List[H]:
     # family's assumptions are unsatisfiable / its assertions unreachable.
     seen = set()
     twins = []
-    for h in hs:
+    for h in sorted(hs, key=lambda x: (not x.required, x.tier != "quick")):   # prefer a required quick member
         key = (h.prop, "_".join(h.family.split("_")[:2]))   # coarse family, e.g. arith_add, eth_set, ipv4_dec
         if key in seen or h.excl_of:
             continue
